@@ -29,6 +29,10 @@ def _qc():
 
 
 def cases(tier):
+    # registers beyond 64 qubits in product states (the dense oracle factorises over the sites)
+    for n in (66, 70):
+        for S in (list(range(n)), list(range(0, n, 2)) + [n - 1] if n % 2 == 0 else list(range(0, n, 2))):
+            yield {'n': n, 'r': [1] * (n + 1), 'S': sorted(set(S)), 'big': True}
     for n in ([1, 2, 3, 4] if tier == 'quick' else [1, 2, 3, 4, 5, 6]):
         mr = max_ranks([2] * n)
         alph = sorted({1, 2, max(mr)})
@@ -44,6 +48,8 @@ def cases(tier):
 def run_case(case, seed):
     qc = _qc()
     r = R(case)
+    if case.get('big'):
+        return run_big(case, r, qc, seed)
     rng = rng_for({'n': case['n'], 'r': case['r']}, seed)
     n, rk, S = case['n'], case['r'], case['S']
     k = len(S)
@@ -60,6 +66,40 @@ def run_case(case, seed):
         st = (1.0 / st.norm()) * st
     r.nontrivial = True
     return _run_state(r, qc, st, n, S, k, second_round=True)
+
+
+def run_big(case, r, qc, seed):
+    n, S = case['n'], case['S']
+    k = len(S)
+    rng = rng_for({'n': n, 'big': 1}, seed)
+    th = rng.uniform(0.2, np.pi / 2 - 0.2, n); ph = rng.uniform(0, 2 * np.pi, n)
+    cores = []
+    for i in range(n):
+        c = np.zeros((1, 2, 1, 1), dtype=complex); c[0, 0, 0, 0] = np.cos(th[i]); c[0, 1, 0, 0] = np.sin(th[i]) * np.exp(1j * ph[i])
+        cores.append(c)
+    st = tt_from(cores)
+    s0 = snap(st)
+    P0 = np.cos(th[S]) ** 2
+    r.nontrivial = True
+    # rows: all-zero outcome, all-one outcome, and outcomes that differ only in the first / only in the last measured sites
+    rows = [P0 - 1e-6, P0 + 1e-6]
+    for j in (0, 1, 2, k - 3, k - 2, k - 1):
+        u = P0 - 1e-6; u = u.copy(); u[j] = P0[j] + 1e-6; rows.append(u)
+    U = np.array(rows)
+    want = (U > P0[None, :]).astype(float)
+    ws, cnt = np.unique(want, return_counts=True, axis=0)
+    orig = np.random.rand
+    np.random.rand = lambda *shape: U.copy()
+    try:
+        with r.op('sampling:large-register:call'):
+            smp, prob = qc.sampling(st, list(S), U.shape[0])
+            smp = np.asarray(smp); prob = np.asarray(prob)
+            r.true('sampling:large-register:inverse-cdf', smp.shape == ws.shape and np.array_equal(smp, ws) and np.allclose(prob, cnt / U.shape[0], rtol=0, atol=1e-15),
+                   '%d distinct outcomes returned, %d expected (%d measured sites)' % (smp.shape[0], ws.shape[0], k))
+    finally:
+        np.random.rand = orig
+    r.true('sampling:state-unchanged', unchanged(st, s0))
+    return r
 
 
 def _run_state(r, qc, st, n, S, k, second_round):
